@@ -227,6 +227,8 @@ def build_args(td, sel):
         s = sel.get(sec, 'none')
         if s == 'empty':
             args.append('--empty-' + sec)
+        elif s == '<empty string>':
+            args += ['--' + sec, '']             # e.g. --gfx "$ART" with the variable unset
         elif s != 'none':
             args += ['--' + sec, os.path.join(td, s)]
     return args
@@ -311,6 +313,25 @@ def check_build(seed, out_kind, sel, case):
     before = prev_out_data(pool, seed, out_kind)
     labs = []
     with tempfile.TemporaryDirectory(prefix='c13_') as td:
+        prelude = case.get('prelude')
+        if prelude:
+            # an earlier build in the same process, from files of the same names with OTHER contents: one that is
+            # rejected (its last argument is unusable) or one that succeeds, into another output file.  Then the
+            # source files are replaced on disk and the build under test runs.
+            other = make_pool(bytes((seed[0] ^ 0x55,)) + bytes(seed[1:]))
+            populate(td, other)
+            pre_sel = {s: v for s, v in sel.items() if v not in ('none', 'empty')} or {'gfx': 'a.p8', 'map': 'c.p8.png'}
+            pre = ['build', os.path.join(td, 'earlier.p8')] + build_args(td, pre_sel)
+            if prelude == 'failed':
+                pre += ['--music', os.path.join(td, 'nothere.p8')] if 'music' not in pre_sel else ['--empty-music']
+            rc0, e0 = run_main(pre)
+            if prelude == 'failed' and e0 is None and rc0 == 0:
+                raise Violation('the earlier build with an unusable last argument returned 0', case, 'error-accepted')
+            if prelude == 'succeeded' and (e0 is not None or rc0 != 0):
+                raise Violation('the earlier (valid) build failed: %r' % (e0 if e0 is not None else rc0,), case, 'build-raised')
+            if os.path.exists(os.path.join(td, 'earlier.p8')):
+                os.unlink(os.path.join(td, 'earlier.p8'))
+            labs.append('after_%s_build_in_same_process' % prelude)
         populate(td, pool)
         out = os.path.join(td, out_name(out_kind))
         if before is not None:
@@ -399,15 +420,17 @@ def config_labels(out_kind, sel):
     return labs, (len(files) >= 2 and exists)
 
 
-def case_dict(seed, out_kind, sel, raw=None):
+def case_dict(seed, out_kind, sel, raw=None, prelude=None):
     c = {'kind': 'build', 'pool': bytes(seed), 'out': out_kind, 'sel': {s: sel.get(s, 'none') for s in SECTIONS}}
     if raw is not None:
         c['seed'] = bytes(raw)
+    if prelude:
+        c['prelude'] = prelude
     return c
 
 
-def do_case(ctx, seed, out_kind, sel, raw=None, extra=()):
-    labs = check_build(seed, out_kind, sel, case_dict(seed, out_kind, sel, raw))
+def do_case(ctx, seed, out_kind, sel, raw=None, extra=(), prelude=None):
+    labs = check_build(seed, out_kind, sel, case_dict(seed, out_kind, sel, raw, prelude))
     cl, nontrivial = config_labels(out_kind, sel)
     key = bytes(seed) + out_kind.encode() + '|'.join(sel.get(s, 'none') for s in SECTIONS).encode()
     ctx.stats.case(key, nontrivial,
@@ -466,7 +489,7 @@ def part_grid(ctx):
         if i % ctx.nshards != ctx.shard:
             continue
         seed = ctx.derive('single', i // 31).to_bytes(8, 'big')[:3]
-        do_case(ctx, seed, ok, sel, extra=('single',))
+        do_case(ctx, seed, ok, sel, extra=('single',), prelude=(None, 'failed', None, 'succeeded', None, None)[i % 6])
 
     # twin pools (source = what OUT already holds, Lua spelled differently): OUT must still get the source's text
     twins = [(ok, sel) for ok in OUT_KINDS for sel in (
@@ -480,7 +503,9 @@ def part_grid(ctx):
 
     def body(raw):
         seed, ok, sel = decode_cfg(raw)
-        do_case(ctx, seed, ok, sel, raw=raw, extra=('drawn',) + (('twin_pool',) if seed[0] % 4 == 0 else ()))
+        prelude = (None, None, 'failed', 'succeeded')[raw[-1] % 4]
+        do_case(ctx, seed, ok, sel, raw=raw, extra=('drawn',) + (('twin_pool',) if seed[0] % 4 == 0 else ()),
+                prelude=prelude)
     ctx.hyp('grid', st.binary(min_size=16, max_size=16), body, max_examples=28 if ctx.quick else 120)
 
     if not ctx.quick:
@@ -496,7 +521,7 @@ def part_grid(ctx):
 # ---------------------------------------------------------------- part "errors"
 
 ERR_KINDS = ('conflict', 'missing', 'wrongext', 'out_wrongext')
-MISSING_NAMES = ('nothere.p8', 'nothere.p8.png', 'nothere.lua')
+MISSING_NAMES = ('nothere.p8', 'nothere.p8.png', 'nothere.lua', '<empty string>', 'a_directory.p8')
 WRONGEXT_NAMES = ('w.txt', 'w.png', 'w.p8.bak', 'm.lua', 'w.rom')     # m.lua is wrong for every section but lua
 OUT_WRONG_NAMES = ('x.txt', 'x.png', 'x.p8.bak', 'x.lua', 'xp8', 'x.rom')
 
@@ -519,6 +544,9 @@ def check_error(seed, out_kind, sel, err, case):
         elif kind == 'missing':
             sel[err['sec']] = err['name']
             what = '--%s naming the missing file %s' % (err['sec'], err['name'])
+            if err['name'] == 'a_directory.p8':
+                os.mkdir(os.path.join(td, 'a_directory.p8'))
+                what = '--%s naming a directory' % err['sec']
         elif kind == 'wrongext':
             name = err['name']
             if name == 'm.lua' and err['sec'] == 'lua':
@@ -567,7 +595,8 @@ def decode_error(raw):
     sec = SECTIONS[ch.below(6)]
     err = {'kind': kind, 'sec': sec}
     if kind == 'missing':
-        err['name'] = MISSING_NAMES[ch.below(3 if sec == 'lua' else 2)]
+        err['name'] = (MISSING_NAMES[:3] if sec == 'lua' else MISSING_NAMES[:2])[ch.below(3 if sec == 'lua' else 2)] \
+            if ch.chance(180) else MISSING_NAMES[3 + ch.below(2)]
     elif kind == 'wrongext':
         err['name'] = WRONGEXT_NAMES[ch.below(len(WRONGEXT_NAMES))]
     elif kind == 'out_wrongext':
@@ -641,7 +670,8 @@ def vacuity(total, tier):
     msgs = []
     need = ['out_' + k for k in OUT_KINDS] + ['err_' + k for k in ERR_KINDS]
     need += ['label_kept_png', 'label_kept_p8', 'label_empty_png', 'mixed_sources', 'lua_from_luafile',
-             'err_out_existing', 'err_out_absent', 'twin_pool']
+             'err_out_existing', 'err_out_absent', 'twin_pool', 'after_failed_build_in_same_process',
+             'after_succeeded_build_in_same_process']
     for sec in SECTIONS:
         need += ['%s_%s' % (sec, k) for k in ('from_p8', 'from_png', 'empty', 'unspecified')]
         need.append('err_conflict_' + sec)
